@@ -459,7 +459,7 @@ func runC17(c *Ctx, si interface{}) {
 		fmt.Sscan(string(b), &used)
 	}
 	c.Eval(1)
-	c.T(exit, so.String(), strings.ReplaceAll(se.String(), dir, "<dir>"), used)
+	c.T(exit, so.String(), used) // stderr carries log timestamps and temp paths: not part of the transcript
 	if len(args) > 1 {
 		c.Distinct(strings.Join(args[:1], " "), s.Length != nil, s.Allow != nil, s.Require != nil, s.Exclude != nil, s.Size != nil, s.List, s.File, s.Sep, s.Cap, s.Entropy, s.BadFlag != "")
 	}
